@@ -24,8 +24,8 @@ from harness import zones as Z
 
 ID = "C14"
 BACKENDS = ("py", "rs")
-GEN_MODULES = ("Pickle",)
-MIN_THEOREMS = 77
+GEN_MODULES = ("Pickle", "Interval:source", "Interval:state", "Interval:endpoints")
+MIN_THEOREMS = 79
 US = D.US
 DAY = 86400 * US
 YMAX = Z.YMAX_QUICK
